@@ -8,6 +8,13 @@
 (*   output : c = [kind, sid, okind, cache, out, nilform, content],           *)
 (*            o = [ran, isError, proto, hasSc, sc, texts]                     *)
 (* JSON values are the tagged pairs of TypedToolDefs.                         *)
+(* The calls of a concurrent scenario (TypedToolConc.tla: several calls in    *)
+(* flight on one server, steps pinned by gates in a TLC-generated order) are  *)
+(* one line each, of the same form: every call is judged by the clauses of    *)
+(* ITS OWN case - what its handler saw / returned against what its client     *)
+(* received (structured content and text) - whatever the other calls did in   *)
+(* between.  Their extra members (c.scn, c.who, o.at, o.fail) are not read    *)
+(* here.                                                                      *)
 EXTENDS VerifTrace, FiniteSets
 D == INSTANCE TypedToolDefs
 
@@ -30,6 +37,7 @@ MNext == /\ l <= NLines /\ l' = l + 1
                    /\ Check(l, "StructuredEqualsOutput", D!StructuredEqualsOutput(c, o))
                    /\ Check(l, "OutputValid", D!OutputValid(c, o))
                    /\ Check(l, "TextFallback", D!TextFallback(c, o))
+                   /\ Check(l, "TextRendersOutput", D!TextRendersOutput(c, o))
                    /\ Check(l, "BadOutputIsError", D!BadOutputIsError(c, o))
                    /\ Check(l, "ValidOutputReturned", D!ValidOutputReturned(c, o))
                    /\ Check(l, "drift", o = D!ExpectedOut(c))
